@@ -8,7 +8,8 @@ path = sys.argv[1]
 subject = re.search(r"^subject (\S+)", open(path).read(), re.M).group(1)
 g = GROUP_OF(subject)
 repo = os.environ.get("REPO", "/repo")
-build = os.path.join(VERIF, "build", "fast")
+import hashlib
+build = os.environ.get("VERIF_BUILD", os.path.join(VERIF, "build", "fast" if repo == "/repo" else "fast-" + hashlib.md5(repo.encode()).hexdigest()[:8]))   # same convention as run_check
 r = subprocess.run(["make", "-C", VERIF, "-j16", "REPO=" + repo, "BUILD=" + build, "GROUPS=" + g], stdout=subprocess.PIPE, stderr=subprocess.STDOUT, text=True)
 if r.returncode != 0:
     print(r.stdout[-3000:]); sys.exit(2)
